@@ -35,6 +35,10 @@ def make_cases(beh, kind, sizes_of, run, allq=0, zq=0, vmap="int", extra=None, k
         o["sort"] = b.get("sort", "all")
         c = {"kind": kind, "chroms": sizes_of(b), "items": b["items"], "opts": o, "vmap": vmap, "allq": allq, "zq": zq,
              "mz": b.get("mz", []), "msum": b.get("msum", {"bases": 0, "sum": 0, "sumsq": 0, "min": 0, "max": 0, "int": 1}), "scale": 1, "asq": "bed3", "long": 0}
+        if vmap == "int" and k % 6 == 4:
+            # a sixth of the files get their items through a text file and the real line reader / parser (bedGraph / BED text):
+            # LF or CRLF line ends, last line terminated or not
+            c["src"], c["eol"], c["final_nl"] = "text", ["lf", "crlf"][(k // 6) % 2], (k // 12) % 2
         if extra:
             c.update(extra(b, k, rng))
         cases.append(c)
